@@ -24,7 +24,7 @@ import (
 type c15Params struct {
 	K       connCfg
 	N       int    // concurrent pings
-	Variant string // inorder | reverse | dup | foreign | withhold | early | asap
+	Variant string // inorder | reverse | dup | foreign | respell | withhold | pingback | early | asap
 	Reader  string // loop | closeread
 }
 
@@ -148,6 +148,12 @@ func c15Setup(prm c15Params) func(c *fw.Ctx, name string) explore.Setup {
 					case "withhold":
 						for _, pl := range pls[1:] {
 							pong(pl, true)
+						}
+					case "pingback":
+						// the peer sends Ping frames that carry the same payloads (two endpoints
+						// of this library number their pings alike) and never a Pong
+						for _, pl := range pls {
+							st.p.Send(peerFrame(k, frame.Frame{Fin: true, Opcode: frame.OpPing, Payload: pl}))
 						}
 					}
 				})
@@ -522,6 +528,61 @@ func c15TwoStalledSetup(k connCfg) func(c *fw.Ctx, name string) explore.Setup {
 	}
 }
 
+// A Ping received while the local Close waits for the peer's Close frame (the
+// connection is still being read: by the close handshake) is answered like any other.
+func c15DuringCloseSetup(k connCfg, viaCloseRead bool) func(c *fw.Ctx, name string) explore.Setup {
+	return func(c *fw.Ctx, name string) explore.Setup {
+		return func(w *vs.World) func(bool) {
+			p := vpipe.New()
+			var pongSeen, closeSeen bool
+			var closeErr error
+			w.GoHarness("main", true, func() {
+				conn := mkConn(p, k)
+				bg := vctx.Background()
+				if viaCloseRead {
+					conn.CloseRead(bg)
+				}
+				w.GoHarness("peer", false, func() {
+					var cf frame.Frame
+					if !p.WaitOut("close-frame", func(out []byte) bool {
+						f, ok := firstClose(out)
+						cf = f
+						return ok
+					}) {
+						return
+					}
+					closeSeen = true
+					p.Send(peerFrame(k, frame.Frame{Fin: true, Opcode: frame.OpPing, Payload: []byte("hs")}))
+					pongSeen = p.WaitOut("pong", func(out []byte) bool {
+						for _, f := range connFrames(out) {
+							if f.Opcode == frame.OpPong && string(f.Payload) == "hs" {
+								return true
+							}
+						}
+						return false
+					})
+					p.Send(peerFrame(k, frame.Frame{Fin: true, Opcode: frame.OpClose, Payload: cf.Payload}))
+				})
+				w.GoHarness("closer", true, func() { closeErr = conn.Close(1000, "") })
+			})
+			return func(complete bool) {
+				if !complete {
+					return
+				}
+				locus := fmt.Sprintf("during-close-handshake/closeread=%v/%s", viaCloseRead, k.String())
+				if w.Panic != "" {
+					violate(c, w, name, "C15/panic/"+locus, w.Panic)
+					return
+				}
+				c.OutcomeStr(fmt.Sprintf("%s|close=%v|pong=%v|err=%v", name, closeSeen, pongSeen, closeErr != nil))
+				if closeSeen && !pongSeen {
+					violate(c, w, name, "C15/ping-not-answered/"+locus, fmt.Sprintf("the peer's Ping arrived while Close was waiting for the peer's Close frame; no Pong with its payload was sent (Close returned %v)\nwire: %s", closeErr, describeFrames(connFrames(p.Out))))
+				}
+			}
+		}
+	}
+}
+
 func c15Scenarios(tier string) []scenario {
 	var scs []scenario
 	cfg := explore.Config{P: 1, T: 0, E: 0, Horizon: 60e9}
@@ -532,7 +593,7 @@ func c15Scenarios(tier string) []scenario {
 	}
 	for _, k := range []connCfg{{Client: false}, {Client: true}} {
 		for _, n := range ns {
-			for _, v := range []string{"inorder", "reverse", "dup", "foreign", "respell", "withhold", "early", "asap"} {
+			for _, v := range []string{"inorder", "reverse", "dup", "foreign", "respell", "withhold", "pingback", "early", "asap"} {
 				for _, rd := range []string{"loop", "closeread"} {
 					if n == 2 && v == "dup" {
 						// with two pings "dup" answers the first twice and withholds the second
@@ -555,6 +616,9 @@ func c15Scenarios(tier string) []scenario {
 	}
 	for _, k := range []connCfg{{Client: false}, {Client: true}} {
 		scs = append(scs, scenario{Name: "stalled-behind-writer/" + k.String(), Cfg: explore.Config{P: pst, T: 1, Horizon: 60e9}, Setup: c15StallSetup(k)})
+		for _, cr := range []bool{false, true} {
+			scs = append(scs, scenario{Name: fmt.Sprintf("during-close-handshake/closeread=%v/%s", cr, k.String()), Cfg: explore.Config{P: pst, T: 1, Horizon: 60e9}, Setup: c15DuringCloseSetup(k, cr)})
+		}
 		scs = append(scs, scenario{Name: "second-ping-behind-stalled-ping/" + k.String(), Cfg: explore.Config{P: pst, T: 1, Horizon: 60e9}, Setup: c15TwoStalledSetup(k)})
 	}
 	return scs
